@@ -93,7 +93,9 @@ static void dump()
   printf(" | %s", regions_ok() ? "R=ok" : "R=bad");
   for(int i = 0; i < nv; ++i) {
     Buffer& b = *vars[i];
-    printf(" [ own=%d cap=%llu at=", b.buffer ? 1 : 0, (unsigned long long)b._capacity);
+    // cap= is what the public capacity() answers; it must be the private member the window arithmetic uses
+    if(b.capacity() == b._capacity) printf(" [ own=%d cap=%llu at=", b.buffer ? 1 : 0, (unsigned long long)b.capacity());
+    else printf(" [ own=%d cap=%llu!=%llu at=", b.buffer ? 1 : 0, (unsigned long long)b.capacity(), (unsigned long long)b._capacity);
     size_t al = b.buffer ? __sanitizer_get_allocated_size(b.buffer) : 0;
     bool found = false;
     if(b.buffer && b.bufferStart >= b.buffer && b.bufferStart <= b.buffer + al) {
@@ -123,12 +125,14 @@ static void op(long c, long, vh::Tok& t)
   int w = t.n > 2 ? var(t.v[2]) : -1;
   bool is_ctor = !strcmp(o, "new") || !strcmp(o, "newcap") || !strcmp(o, "newdata") || !strcmp(o, "newcopy");
   bool binary = !strcmp(o, "asg") || !strcmp(o, "prependb") || !strcmp(o, "appendb") || !strcmp(o, "swap") || !strcmp(o, "eq");
+  bool at = !strcmp(o, "appendat") || !strcmp(o, "assignat") || !strcmp(o, "prependat");
+  if(at && v >= 0 && (t.n < 4 || usz(t.v[2]) + usz(t.v[3]) > vars[v]->size())) v = -1;     // the pointer does not point at bytes of v
   if(is_ctor ? (nv >= MAXV || (!strcmp(o, "newcopy") && v < 0)) : (v < 0 || (binary && w < 0))) {
     printf("! not-accepted\n"); rejected = true; return;
   }
   const char* res = "-";
   if(!strcmp(o, "new")) vars[nv++] = new Buffer;
-  else if(!strcmp(o, "newcap")) vars[nv++] = new Buffer((usize)atol(t.v[1]));
+  else if(!strcmp(o, "newcap")) vars[nv++] = new Buffer(usz(t.v[1]));
   else if(!strcmp(o, "newdata")) { size_t n; unsigned char* d = vh::unhex(t.v[1], n); vars[nv++] = new Buffer(d, n); free(d); }
   else if(!strcmp(o, "newcopy")) { Buffer* b = new Buffer(*vars[v]); vars[nv++] = b; }
   else if(!strcmp(o, "attach")) { size_t n; unsigned char* d = new_region(t.v[2], n); vars[v]->attach(d, n); }
@@ -138,8 +142,12 @@ static void op(long c, long, vh::Tok& t)
   else if(!strcmp(o, "prependb")) vars[v]->prepend(*vars[w]);
   else if(!strcmp(o, "append")) { size_t n; unsigned char* d = vh::unhex(t.v[2], n); vars[v]->append(d, n); free(d); }
   else if(!strcmp(o, "appendb")) vars[v]->append(*vars[w]);
-  else if(!strcmp(o, "resize")) vars[v]->resize((usize)atol(t.v[2]));
-  else if(!strcmp(o, "reserve")) vars[v]->reserve((usize)atol(t.v[2]));
+  else if(!strcmp(o, "resize")) vars[v]->resize(usz(t.v[2]));
+  else if(!strcmp(o, "reserve")) vars[v]->reserve(usz(t.v[2]));
+  // the source is n bytes at offset off inside the Buffer's own window
+  else if(!strcmp(o, "appendat")) vars[v]->append((const byte*)*vars[v] + usz(t.v[2]), usz(t.v[3]));
+  else if(!strcmp(o, "assignat")) vars[v]->assign((const byte*)*vars[v] + usz(t.v[2]), usz(t.v[3]));
+  else if(!strcmp(o, "prependat")) vars[v]->prepend((const byte*)*vars[v] + usz(t.v[2]), usz(t.v[3]));
   else if(!strcmp(o, "rmfront")) vars[v]->removeFront(usz(t.v[2]));
   else if(!strcmp(o, "rmback")) vars[v]->removeBack(usz(t.v[2]));
   else if(!strcmp(o, "clear")) vars[v]->clear();
